@@ -43,8 +43,9 @@ fn gen_case(rng: &mut Rng, out: &mut Out, tier: &str) {
     // link pattern: healthy-biased, but every pattern occurs
     let links: String = (0..nex)
         .map(|_| match rng.below(100) {
-            0..=59 => 'H',
-            60..=79 => 'C',
+            0..=54 => 'H',
+            55..=69 => 'C',
+            70..=84 => 'U',
             _ => 'M',
         })
         .collect();
